@@ -43,7 +43,9 @@ def run_demo(d):
             if f.endswith(".bloc"):
                 p = subprocess.run([env["BLOC"], f], stdout=subprocess.PIPE, stderr=subprocess.STDOUT, env=env, timeout=60, cwd=d)
             elif f.endswith(".sh"):
-                p = subprocess.run(["sh", f, view], stdout=subprocess.PIPE, stderr=subprocess.STDOUT, env=env, timeout=300, cwd=d)
+                head = open(f).read(400)
+                arg = BASE if ("<build dir>" in head and "worktree" not in head.lower()) else view
+                p = subprocess.run(["sh", f, arg], stdout=subprocess.PIPE, stderr=subprocess.STDOUT, env=env, timeout=300, cwd=d)
             elif f.endswith(".cpp") or f.endswith(".c"):
                 exe = "/tmp/seed-demo-bin"
                 cc = ["g++", "-std=c++11"] if f.endswith(".cpp") else ["gcc"]
